@@ -4,30 +4,29 @@
    Callback wiring (see lha_pm1_init): the bit reader's callback is the decoder's own
    read_callback_wrapper with callback_data == the decoder; the wrapper calls the user's input
    callback stored in decoder->callback.  Hence, for this unit,
-     - the input-callback stub of vg_decoder.h is renamed vg_user_cb (same body, same ASSUME),
-     - `vg_cb`, the name the shared bit_stream_reader.c.spec uses for "the bit reader's callback",
-       stands for read_callback_wrapper,
+     - VG_CB, the shared bit_stream_reader.c.spec's name for "the bit reader's callback", is
+       read_callback_wrapper (under contract below; replaced by its contract inside peek_bits),
+     - the input-callback stub vg_cb of vg_decoder.h stands for the USER's callback decoder->callback,
      - BSR_OK additionally says that callback_data is the pinned decoder and that the decoder's
        user callback is the stub (that is what read_callback_wrapper needs when peek_bits calls it). */
 #define VG_CB_MAX 4
+#define VG_CB read_callback_wrapper
 #ifdef VG_WRAPPER_EOF
-#define vg_cb     vg_unused_cb
+#define vg_cb     vg_unused_cb          /* the shared stub is compiled under another name ...     */
 #define vg_cb_ptr vg_unused_cb_ptr
-#else
-#define vg_cb     vg_user_cb
-#define vg_cb_ptr vg_user_cb_ptr
 #endif
 #include "vg_decoder.h"
-#undef vg_cb
-#undef vg_cb_ptr
 #undef BSR_OK
 
 #ifdef VG_WRAPPER_EOF
-/* Group pm1.read_callback_wrapper@eof only: the same input-callback stub, except that its answer is
-   the ghost INPUT vg_cb_plan (arbitrary, fixed; the wrapper calls its callback exactly once), so that
-   the wrapper's contract can say what happens when the input callback reports end of input. */
+#undef vg_cb
+#undef vg_cb_ptr
+/* ... in group pm1.read_callback_wrapper@eof only, and replaced by the same stub except that its
+   answer is the ghost INPUT vg_cb_plan (arbitrary, fixed; the wrapper calls its callback exactly
+   once), so that the wrapper's contract can say what happens when the input callback reports end
+   of input. */
 size_t vg_cb_plan;
-size_t vg_user_cb(void *buf, size_t buf_len, void *user_data)
+size_t vg_cb(void *buf, size_t buf_len, void *user_data)
 {
 	size_t n = vg_cb_plan;
 	uint8_t *p = (uint8_t *) buf;
@@ -39,19 +38,18 @@ size_t vg_user_cb(void *buf, size_t buf_len, void *user_data)
 	if (n > 3) p[3] = nondet_uchar();
 	return n;
 }
-size_t (*const vg_user_cb_ptr)(void *, size_t, void *) = vg_user_cb;
+size_t (*const vg_cb_ptr)(void *, size_t, void *) = vg_cb;
 #endif
 
 static size_t read_callback_wrapper(void *buf, size_t buf_len, void *user_data);
-#define vg_cb read_callback_wrapper
 
 /* Addresses inside the arena vg_dec (declared by the woven pm1_decoder.c after its struct); they are
    needed by contracts of bit_stream_reader.c, which is included before the struct exists. */
 extern void *const vg_pm1_self;                                      /* == &vg_dec          */
 extern size_t (*const *const vg_pm1_ucb)(void *, size_t, void *);   /* == &vg_dec.callback */
 
-#define BSR_OK(r) ((r)->bits <= 32 && (r)->callback == read_callback_wrapper && \
-                   (r)->callback_data == vg_pm1_self && *vg_pm1_ucb == vg_user_cb)
+#define BSR_OK(r) ((r)->bits <= 32 && (r)->callback == VG_CB && \
+                   (r)->callback_data == vg_pm1_self && *vg_pm1_ucb == vg_cb)
 
 /* ---- pm1 vocabulary ------------------------------------------------------------------------- */
 #define VG_NROWS      32u                       /* rows of byte_decode_trees (checked in h_trees)  */
@@ -75,7 +73,6 @@ extern size_t (*const *const vg_pm1_ucb)(void *, size_t, void *);   /* == &vg_de
 #define VG_TREES_OK   (__CPROVER_forall { unsigned vo_; (vo_ < VG_NROWS * VG_ROWLEN) ==> VG_NODE_OK(vo_) })
 
 #define VG_BSR        BSR_OK(&vg_dec.bit_stream_reader)
-#define VG_PIN(d)     ((d) == &vg_dec && VG_BSR)
 #define VG_RING_OK    (vg_dec.ringbuf_pos < RING_BUFFER_SIZE)
 /* History list: the invariant memory safety needs is "every link is a valid index into history[256]";
    it holds by type (uint8_t links) and is re-checked as bounds obligations wherever the list is
@@ -109,7 +106,6 @@ extern size_t (*const *const vg_pm1_ucb)(void *, size_t, void *);   /* == &vg_de
 #include "lib/pm1_decoder.c"
 
 HistoryLinkedList *const vg_hist = &vg_dec.history_list;
-uint8_t vg_hist_k;   /* parameter of pma_common.c.spec (only used by its -DVG_HIST_INVERSE lemma groups, run in the pm2 plan) */
 const VariableLengthTable *const vg_vlt = VG_VLT_TABLE;
 void *const vg_pm1_self = &vg_dec;
 size_t (*const *const vg_pm1_ucb)(void *, size_t, void *) = &vg_dec.callback;
